@@ -149,7 +149,8 @@ def run(ctx):
                 bad = True
                 ctx.violation("observable results differ between configurations %s and %s: %s" % (ref_cfg, cfg, what),
                               {"name": name, "program": text, "configs": [list(ref_cfg), list(cfg)], "what": what},
-                              key=common.classify(ref_out, out, text) if (o == "ok" and ref_o == "ok") else None)
+                              key=common.classify(ref_out, out, text) if (o == "ok" and ref_o == "ok")
+                              else common.classify_outcomes(ref_o, o, text))
                 break
         if not bad:
             ctx.cov["traces_validated_against_impl"] += len(outs)
